@@ -16,6 +16,7 @@ import (
 	"hash/fnv"
 	"math/rand"
 	"os"
+	"regexp"
 	"runtime"
 	"sort"
 	"strconv"
@@ -80,12 +81,8 @@ const batchSize = 250
 // every view of a history lives under this realm (the model's realms are relative to it)
 const baseRealm = "r"
 
-var bigBudget = func() int {
-	if v, err := strconv.Atoi(os.Getenv("C05_BIG")); err == nil {
-		return v
-	}
-	return 40
-}()
+// recorded operations per history beyond 8 goroutines
+const bigBudget = 40
 
 func procsFor(idx int) int { return procsList[(idx/batchSize)%len(procsList)] }
 
@@ -1010,6 +1007,22 @@ func child(c *vf.Ctx) {
 
 // ---------------------------------------------------------------- parent
 
+func atoi(s string) int { n, _ := strconv.Atoi(s); return n }
+
+var digits = regexp.MustCompile(`[0-9]+`)
+
+// crashFP names a process death by its fatal-error line (numbers removed).
+func crashFP(fatal string) string {
+	f := strings.TrimSpace(digits.ReplaceAllString(fatal, "N"))
+	if len(f) > 80 {
+		f = f[:80]
+	}
+	if f == "" {
+		f = "unknown"
+	}
+	return "crash/" + f
+}
+
 func planFor(c *vf.Ctx, idx int) Plan { return genPlan(c.Rand("plan/"+strconv.Itoa(idx)), idx) }
 
 // hung inspects a timed-out child: kvstore goroutines all parked on sync primitives => dead-lock.
@@ -1069,7 +1082,7 @@ func runPlainChildren(c *vf.Ctx, total, nChildren int) {
 		case res.TimedOut:
 			hung(c, res, "plain child")
 		case res.ExitCode != 0:
-			c.Violation("crash", fmt.Sprintf("child died (%s) while executing history %s", res.Fatal, res.LastMark), map[string]any{"history": res.LastMark, "fatal": res.Fatal})
+			c.Violation(crashFP(res.Fatal), fmt.Sprintf("child died (%s) while executing history %s", res.Fatal, res.LastMark), map[string]any{"plan": planFor(c, atoi(res.LastMark)), "deadlock": true, "fatal": res.Fatal})
 		}
 	})
 }
@@ -1084,7 +1097,7 @@ func runRaceChildren(c *vf.Ctx, total, nChildren int, seed int64) {
 		case res.TimedOut:
 			hung(c, res, "race child")
 		case res.ExitCode != 0 && len(res.Races) == 0:
-			c.Violation("crash", fmt.Sprintf("race child died (%s) near history %s", res.Fatal, res.LastMark), map[string]any{"history": res.LastMark, "fatal": res.Fatal})
+			c.Violation(crashFP(res.Fatal), fmt.Sprintf("race child died (%s) near history %s", res.Fatal, res.LastMark), map[string]any{"history": res.LastMark, "fatal": res.Fatal})
 		}
 	})
 }
@@ -1140,6 +1153,10 @@ func replay(c *vf.Ctx) {
 		res := c.RunChild(vf.ChildOpts{Name: "replan", Args: []string{"0", "0"}, Stdin: b, Timeout: 5 * time.Minute})
 		if res.Deadlock {
 			c.Violation("deadlock", "Go runtime reported 'all goroutines are asleep' while re-executing the plan", map[string]any{"plan": rp.Plan, "deadlock": true})
+		} else if res.TimedOut {
+			hung(c, res, "replay child")
+		} else if res.ExitCode != 0 {
+			c.Violation(crashFP(res.Fatal), fmt.Sprintf("child died (%s) while re-executing the plan", res.Fatal), map[string]any{"plan": rp.Plan, "deadlock": true, "fatal": res.Fatal})
 		}
 	}
 }
@@ -1155,7 +1172,7 @@ func run(c *vf.Ctx) {
 	var wg sync.WaitGroup
 	wg.Add(2)
 	go func() { defer wg.Done(); runPlainChildren(c, nPlain, c.Pick(4, 5)) }()
-	go func() { defer wg.Done(); runRaceChildren(c, nRace, 2, c.Seed) }()
+	go func() { defer wg.Done(); runRaceChildren(c, nRace, c.Pick(2, 4), c.Seed) }()
 	wg.Wait()
 	c.Require("histories", nPlain*9/10)
 	c.Require("race_histories", nRace*9/10)
@@ -1217,9 +1234,12 @@ func childDispatch(c *vf.Ctx) {
 			fmt.Fprintln(os.Stderr, err)
 			os.Exit(3)
 		}
-		for i := 0; i < 5000; i++ {
+		for i := 0; i < 3000; i++ {
 			runtime.GOMAXPROCS(procsList[i%3])
-			execute(p, false)
+			if dl := executeGuarded(p); dl != nil {
+				c.Violation("deadlock", fmt.Sprintf("re-executed plan (run %d): every goroutine is parked on a lock in two consecutive snapshots and the history has not finished", i), map[string]any{"plan": p, "deadlock": true, "goroutines": dl.frames})
+				return
+			}
 		}
 		return
 	}
